@@ -338,6 +338,9 @@ class MultiThreadRunner(BaseRunner):
 
     def runner_loop_iteration(self) -> None:
         """Execute one iteration of the runner loop."""
+        # forget workers that died, otherwise they keep counting towards the pool size
+        # and are never replaced
+        self._cleanup_dead_processes()
         self._scale_up_processes()
 
     def _waiting_for_results(
